@@ -121,6 +121,7 @@ type c05Fake struct {
 	nreq    int
 	nspontaneous int
 	pending map[*c05Req]bool // requests parked in a handler
+	chunked bool             // answer reads without Content-Length (chunked transfer encoding)
 }
 
 func c05NewFake(kind string, nclients int) *c05Fake {
@@ -178,6 +179,12 @@ func (f *c05Fake) reset() {
 }
 
 func (f *c05Fake) setPark(on bool) { f.mu.Lock(); f.park = on; f.mu.Unlock() }
+
+// setChunked selects the framing of successful read responses: with a
+// Content-Length header (default) or streamed with chunked transfer encoding
+// and no Content-Length, as a streaming proxy or gateway in front of the
+// store may deliver them.
+func (f *c05Fake) setChunked(on bool) { f.mu.Lock(); f.chunked = on; f.mu.Unlock() }
 
 func c05ETag(v []byte) string { return fmt.Sprintf("\"%x\"", md5.Sum(v)) }
 
@@ -484,16 +491,26 @@ func (f *c05Fake) handler(client int) http.HandlerFunc {
 			if f.kind == "dynamodb" {
 				k := []byte(q.key)
 				out, _ := json.Marshal(map[string]any{"Item": map[string]c05AV{"logID": {B: &k}, "checkpoint": {B: &item.val}}})
-				c05WriteDynamo(w, 200, out)
+				if f.chunked {
+					w.Header().Set("Content-Type", "application/x-amz-json-1.0")
+					w.Header().Set("X-Amz-Crc32", fmt.Sprint(crc32.ChecksumIEEE(out)))
+					c05WriteChunked(w, 200, out)
+				} else {
+					c05WriteDynamo(w, 200, out)
+				}
 			} else {
 				w.Header().Set("ETag", c05ETag(item.val))
 				var crc [4]byte
 				binary.BigEndian.PutUint32(crc[:], crc32.ChecksumIEEE(item.val))
 				w.Header().Set("x-amz-checksum-crc32", base64.StdEncoding.EncodeToString(crc[:]))
 				w.Header().Set("Content-Type", "text/plain; charset=utf-8")
-				w.Header().Set("Content-Length", fmt.Sprint(len(item.val)))
-				w.WriteHeader(200)
-				w.Write(item.val)
+				if f.chunked {
+					c05WriteChunked(w, 200, item.val)
+				} else {
+					w.Header().Set("Content-Length", fmt.Sprint(len(item.val)))
+					w.WriteHeader(200)
+					w.Write(item.val)
+				}
 			}
 		}
 	}
@@ -507,6 +524,23 @@ func c05WriteDynamo(w http.ResponseWriter, status int, body []byte) {
 	w.Header().Set("Content-Length", fmt.Sprint(len(body)))
 	w.WriteHeader(status)
 	w.Write(body)
+}
+
+// c05WriteChunked sends the body without a Content-Length header: flushing
+// the header first makes net/http use chunked transfer encoding.
+func c05WriteChunked(w http.ResponseWriter, status int, body []byte) {
+	w.Header().Del("Content-Length")
+	w.WriteHeader(status)
+	if fl, ok := w.(http.Flusher); ok {
+		fl.Flush()
+	}
+	// two pieces, so that the body never arrives in one read
+	half := len(body) / 2
+	w.Write(body[:half])
+	if fl, ok := w.(http.Flusher); ok && half > 0 {
+		fl.Flush()
+	}
+	w.Write(body[half:])
 }
 
 func (f *c05Fake) writeError(w http.ResponseWriter, status int, dynType, s3Code, msg string) {
